@@ -341,7 +341,14 @@ def run_op(op: str, st: State, seams) -> str:
         md = BeaconMetadata()
         md.magic, md.bid, md.pid, md.aes_rand, md.info = 0xBEEF, 4242, 7, b"S" * 16, b"pc\tuser\tp.exe"
         dec = C2Http(bc, rsa_private_key=st.priv)
-        blob = encrypt_metadata(md, public_key=dec.pub)
+        import Crypto.Random as _cr
+        from dst.session.kernel import SeededBytes
+        _saved = _cr.get_random_bytes
+        _cr.get_random_bytes = SeededBytes("rsa_session")       # the same PKCS#1 padding, hence the same blob, every time
+        try:
+            blob = encrypt_metadata(md, public_key=dec.pub)
+        finally:
+            _cr.get_random_bytes = _saved
         req = dec.transform_get.transform(C2Data(metadata=blob), request=HttpRequest(method=dec.get_verb, uri=dec.get_uris[0], params={},
                                                                                  headers={}, body=b""))
         first = [type(p_).__name__ for p_ in dec.iter_recover_http(req)]
